@@ -1,13 +1,13 @@
 #!/bin/bash
-# try_mutant.sh <patch.diff> <prop> [prop...]: applies the patch to a scratch worktree of /repo's HEAD
-# (never to /repo), runs the given checks against it through VERIF_REPO and prints their VIOLATION lines.
+# try_mutant.sh <patch.diff> <prop> [prop...]: applies the patch to a private scratch worktree of /repo's HEAD
+# (never to /repo; one worktree per invocation, so concurrent invocations do not disturb each other), runs the
+# given checks against it through VERIF_REPO and prints their VIOLATION lines.
 PATCH=$1; shift
-SNAP=/var/tmp/repo-snap
-[ -d $SNAP ] || git -C /repo worktree add --detach $SNAP HEAD -q
-git -C $SNAP checkout -q -- . && git -C $SNAP checkout -q --detach $(git -C /repo rev-parse HEAD) || exit 2
+SNAP=/var/tmp/repo-try-$$
+trap 'git -C /repo worktree remove --force $SNAP >/dev/null 2>&1; rm -rf /var/tmp/verif-alt-out/$$' EXIT
+git -C /repo worktree add --detach $SNAP HEAD -q || exit 2
 git -C $SNAP apply $PATCH || { echo "PATCH DOES NOT APPLY"; exit 2; }
 cd /verif
 for P in "$@"; do
-  VERIF_REPO=$SNAP ./check $P 2>&1 | grep -E "^VIOLATION|^  clause|^check $P|build trouble" | cut -c1-220 | head -${LINES_MAX:-9}
+  VERIF_REPO=$SNAP VERIF_OUT=/var/tmp/verif-alt-out/$$ ./check $P 2>&1 | grep -E "^VIOLATION|^  clause|^check $P|build trouble" | cut -c1-220 | head -${LINES_MAX:-9}
 done
-git -C $SNAP checkout -q -- .
